@@ -270,3 +270,98 @@ def _si_unit_of(u):
         except Exception:
             pass
     raise ValueError(u)
+
+
+# ---- bounded stand-in: the real kernels on the property's own unit x dtype grid ----------------------------------------------------
+WANT_UNIT = {'wavelength_from_tof': 'angstrom', 'dspacing_from_tof': 'angstrom', 'energy_from_tof': 'meV', 'energy_from_wavelength': 'meV',
+             'wavelength_from_energy': 'angstrom', 'wavelength_from_Q': 'angstrom', 'dspacing_from_wavelength': 'angstrom',
+             'dspacing_from_energy': 'angstrom'}
+GRID_DTYPES = ('float64', 'float32', 'int64', 'int32')
+
+
+def grid_case(kname, units, dtypes, rng):
+    """One cell of the grid: random values in the chosen units/dtypes -> problems of the REAL kernel against the mpmath reference
+    (value to rounding, documented unit, dtype contract).  Returns (inputs description, problems)."""
+    import mpmath as mp
+    import numpy as np
+    import scipp as sc
+    import scipp.constants
+    from vf.realrun import real_module
+    fn = getattr(real_module('conversion.tof'), kname)
+    spec = KERNELS[kname]
+    names = list(spec['args'])
+    h, m = sc.constants.h.value, sc.constants.m_n.value
+    args, exact_si = {}, {}
+    for a, u, dt in zip(names, units, dtypes):
+        dim = spec['args'][a]
+        scale = mp.mpf(sc.scalar(1.0, unit=u).to(unit=_si_unit(dim)).value)
+        if dim == 'angle':
+            v = float(rng.uniform(0.02, 3.1)) / float(scale)
+            if dt.startswith('int'):
+                v = int(rng.integers(1, 180)) if u == 'deg' else int(rng.integers(1, 4))
+        else:
+            v = DEFAULT_SI[dim] * 10 ** rng.uniform(-1, 1) / float(scale)
+            if dt.startswith('int'):
+                v = int(min(max(round(v), 1), 30000))
+                if v > 3:
+                    v = int(rng.integers(max(1, v // 2), v + 1))
+        args[a] = sc.scalar(v, unit=u, dtype=dt)
+        exact_si[a] = mp.mpf(float(args[a].value)) * scale
+    desc = {a: f'{args[a].value!r} {u} {dt}' for a, u, dt in zip(names, units, dtypes)}
+    try:
+        r = fn(**args)
+    except sc.DTypeError as e:
+        if 'int32' in dtypes:
+            return desc, []          # "int32 where scipp supports the arithmetic"
+        return desc, [f'DTypeError: {e}']
+    except Exception as e:  # noqa: BLE001
+        return desc, [f'{type(e).__name__}: {e}']
+    problems = []
+    out_unit = WANT_UNIT.get(kname) or str((sc.scalar(1.0, unit=args[names[0]].unit) ** -1).unit)
+    if str(r.unit) != str(sc.Unit(out_unit)):
+        problems.append(f'unit {r.unit} != documented {out_unit}')
+    else:
+        ref = reference(kname, exact_si, h, m) / mp.mpf(sc.scalar(1.0, unit=out_unit).to(unit=_si_unit_of(out_unit)).value)
+        tol = 1e-5 if 'float32' in dtypes else 1e-11
+        err = abs((mp.mpf(float(r.value)) - ref) / ref)
+        if not err <= tol:
+            problems.append(f'relative error {mp.nstr(err, 5)} > {tol}: got {float(r.value)!r}, reference {mp.nstr(ref, 17)}')
+    want_dt = 'float32' if all(dt == 'float32' for a, dt in zip(names, dtypes) if a in spec['data']) else 'float64'
+    if str(r.dtype) != want_dt:
+        problems.append(f'dtype {r.dtype} != {want_dt}')
+    return desc, problems
+
+
+def grid_cells(kname):
+    spec = KERNELS[kname]
+    names = list(spec['args'])
+    import itertools as it
+    return list(it.product(it.product(*[UNIT_GRID[spec['args'][a]] for a in names]), it.product(GRID_DTYPES, repeat=len(names))))
+
+
+def grid_check(chk, per_kernel=None, limit=3):
+    """[B] real kernels vs reference over the unit x dtype grid of the property: all cells (per_kernel=None) or a seeded sample."""
+    import numpy as np
+    total, fails, cells_total = 0, [], 0
+    for kname in KERNELS:
+        cells = grid_cells(kname)
+        cells_total += len(cells)
+        rng = np.random.default_rng(1000 + chk.seed + len(kname))
+        idx = range(len(cells)) if per_kernel is None or per_kernel >= len(cells) else sorted(rng.choice(len(cells), size=per_kernel, replace=False))
+        nf = 0
+        for i in idx:
+            units, dts = cells[i]
+            desc, problems = grid_case(kname, units, dts, np.random.default_rng([chk.seed, i, len(kname)]))
+            total += 1
+            if problems and nf < limit:
+                nf += 1
+                fails.append({'id': f'{kname}-cell{i}', 'kernel': kname, 'cell': int(i), 'seed': chk.seed, 'inputs': desc, 'problems': problems})
+    return total, cells_total, fails
+
+
+def replay_grid(f):
+    import numpy as np
+    cells = grid_cells(f['kernel'])
+    units, dts = cells[int(f['cell'])]
+    desc, problems = grid_case(f['kernel'], units, dts, np.random.default_rng([int(f.get('seed', 0)), int(f['cell']), len(f['kernel'])]))
+    return {'reproduced': bool(problems), 'inputs': desc, 'problems': problems}
